@@ -106,7 +106,13 @@ func main() {
 	tier := fs.String("tier", "quick", "quick|thorough")
 	gmode := fs.String("mode", "", "generator variant")
 	_ = fs.Parse(os.Args[3:])
-	out := bufio.NewWriterSize(os.Stdout, 1<<20)
+	// the protocol owns the process's standard output; anything the code under test prints with fmt.Print*
+	// (cdrFile.Encoding's warnings, for one) goes to the null device instead of between two answers
+	protoOut := os.Stdout
+	if dn, err := os.OpenFile(os.DevNull, os.O_WRONLY, 0); err == nil {
+		os.Stdout = dn
+	}
+	out := bufio.NewWriterSize(protoOut, 1<<20)
 	defer out.Flush()
 	switch mode {
 	case "gen":
